@@ -62,16 +62,18 @@ def run_variant(prop: str, edits, repo_root: str = "/repo", timeout: int = 120):
 
 
 def run_corpus(prop: str, variants: list[dict], jobs: int = 16, repo_root: str = "/repo") -> dict:
-    """variants: [{name, edits, expect: 'fire'|'silent', rule?: str}]"""
+    """variants: [{name, edits, expect: 'fire'|'notice'|'silent', rule?: str}]"""
     def one(v):
         res = run_variant(prop, v["edits"], repo_root)
         ok = None
         if res["status"] == "ran":
-            if v["expect"] == "fire":
+            if v["expect"] == "fire":        # a definite recogniser exists: VIOLATION, by the named rule
                 ok = res["exit"] == 1 and (not v.get("rule") or v["rule"] in res.get("rules_fired", [])
                                            or any(v["rule"] in l for l in res["lines"]))
-            else:
-                ok = res["exit"] == 0
+            elif v["expect"] == "notice":    # breaking, but only visible as a shape the rule does not know: VIOLATION or no verdict, never a pass
+                ok = res["exit"] in (1, 2) and (not v.get("rule") or any(v["rule"] in l for l in res["lines"]))
+            else:                            # behaviour preserving: never a VIOLATION (no verdict is tolerated, and counted)
+                ok = res["exit"] in (0, 2)
         return {"name": v["name"], "expect": v["expect"], "rule": v.get("rule"), **res, "ok": ok}
     with ThreadPoolExecutor(max_workers=jobs) as ex:
         results = list(ex.map(one, variants))
@@ -83,4 +85,6 @@ def run_corpus(prop: str, variants: list[dict], jobs: int = 16, repo_root: str =
         "failed": [r for r in applicable if not r["ok"]],
         "not_applicable": [r["name"] for r in results if r["status"] != "ran"],
         "results": [{k: r.get(k) for k in ("name", "expect", "exit", "ok")} for r in results],
+        "by_outcome": {e: {str(x): sum(1 for r in applicable if r["expect"] == e and r["exit"] == x) for x in (0, 1, 2)}
+                       for e in ("fire", "notice", "silent")},
     }
